@@ -56,5 +56,18 @@ func init() {
 		pr("ENGINE", eng)
 		pr("PROM", prom)
 		fmt.Println("DIFF", Diff(eng, prom))
+		if plan, err := c.Preprocess(); err == nil {
+			if lean, err := StartLean(); err == nil {
+				lines, _ := c.ProtoLines(plan, []string{"spec", "model", "ties"})
+				ans, _ := lean.Ask(lines)
+				for _, v := range []string{"spec", "model"} {
+					r, _ := ParseLeanResult(ans[v])
+					pr("LEAN-"+v, r)
+				}
+				fmt.Println("ties", ans["ties"])
+				fmt.Println(lines[len(lines)-5])
+				lean.Close()
+			}
+		}
 	}
 }
